@@ -2,6 +2,7 @@ package leanhelix
 
 import (
 	"github.com/orbs-network/lean-helix-go/services/interfaces"
+	"github.com/orbs-network/lean-helix-go/services/preparedmessages"
 	"github.com/orbs-network/lean-helix-go/spec/types/go/primitives"
 	"github.com/orbs-network/lean-helix-go/spec/types/go/protocol"
 	env "github.com/orbs-network/lean-helix-go/zzverifenv"
@@ -279,6 +280,10 @@ func (c *vCluster) prefix(p int, timeouts int) {
 	}
 	if p == 8 {
 		c.prefixEarlyCommit()
+		return
+	}
+	if p == 9 {
+		c.prefixSecondProposal()
 		return
 	}
 	if p == 5 {
@@ -591,6 +596,69 @@ func (c *vCluster) prefixEarlyCommit() {
 		}
 	}
 	c.nodes[1].deliver(net.vcm(c.byz, 1, 1, nil).ToConsensusRawMessage())
+	c.flush(nil)
+	c.byzFollow()
+	c.flush(nil)
+}
+
+// prefixSecondProposal (prefix 9, Byzantine member 1 = leader of view 1; it signs only under its own key):
+//   view 0: everybody is locked on the honest proposal A; the highest correct node commits it (with a genuine Byzantine
+//           COMMIT) and is gone; the other two time out, their votes (with proofs of A@0) reach the Byzantine leader;
+//   view 1: it sends the valid NEW_VIEW re-proposing A, and then a stand-alone PREPREPARE(Y) for the SAME view; the
+//           PREPAREs of view 1 reach nobody but the Byzantine member (nobody is prepared in view 1);
+//   view 2: the two nodes time out again; the Byzantine member votes with whatever certificate for Y@1 it could
+//           assemble from PREPAREs the correct nodes really sent (none, unless they answered the second proposal);
+//           everything is delivered and it goes along with what the others prepare.
+func (c *vCluster) prefixSecondProposal() {
+	env.Assume(c.byz == 1)
+	net := c.wd.net
+	lost := func(from, to int, m interfaces.ConsensusMessage) bool { return false }
+	c.prefix(2, 0) // locked on A, the highest correct node committed
+	cs := c.correct()
+	live := cs[:len(cs)-1] // nodes 0 and 2
+	for _, i := range live {
+		c.nodes[i].timeout()
+	}
+	var votes []*interfaces.ViewChangeMessage
+	var a interfaces.Block
+	for _, i := range live {
+		for _, sm := range c.nodes[i].comm.Out {
+			if vc, ok := sm.Msg.(*interfaces.ViewChangeMessage); ok && vc.View() == 1 {
+				votes = append(votes, vc)
+				a = vc.Block()
+			}
+		}
+	}
+	env.Assume(len(votes) == 2 && a != nil)
+	ablk, _ := a.(*stub.Block)
+	votes = append(votes, net.vcm(c.byz, 1, 1, nil))
+	c.flush(lost)
+	nv := net.nvm(c.byz, 1, 1, votes, ablk).ToConsensusRawMessage()
+	y := &stub.Block{H: 1, Tag: 0x63, ProposalOK: true}
+	ppY := net.ppm(c.byz, 1, 1, y)
+	for _, i := range live {
+		c.nodes[i].deliver(nv)
+		c.nodes[i].deliver(ppY.ToConsensusRawMessage())
+	}
+	// the Byzantine member harvests the PREPAREs for Y that the correct nodes really sent
+	var preps []*interfaces.PrepareMessage
+	for _, i := range live {
+		for _, sm := range c.nodes[i].comm.Out {
+			if pm, ok := sm.Msg.(*interfaces.PrepareMessage); ok && pm.View() == 1 && env.EqBytes(pm.Content().SignedHeader().BlockHash(), stub.HashOf(y)) {
+				preps = append(preps, pm)
+			}
+		}
+	}
+	c.flush(lost)
+	for _, i := range live {
+		c.nodes[i].timeout()
+	}
+	if len(preps) > 0 {
+		cert := &preparedmessages.PreparedMessages{PreprepareMessage: ppY, PrepareMessages: preps}
+		c.nodes[2].deliver(net.vcm(c.byz, 1, 2, cert).ToConsensusRawMessage())
+	} else {
+		c.nodes[2].deliver(net.vcm(c.byz, 1, 2, nil).ToConsensusRawMessage())
+	}
 	c.flush(nil)
 	c.byzFollow()
 	c.flush(nil)
